@@ -244,7 +244,7 @@ def E2() -> bool:
 
 
 def _e1_shards(tier):
-    cfgs = [{"N": 4, "D": 3, "max_lines": 9}] if tier == "quick" else [{"N": 5, "D": 4, "max_lines": 10}, {"N": 4, "D": 3, "max_lines": 9, "idtext": 1}, {"N": 4, "D": 3, "max_lines": 9, "exc": 3}]
+    cfgs = [{"N": 4, "D": 3, "max_lines": 8}] if tier == "quick" else [{"N": 5, "D": 4, "max_lines": 10}, {"N": 4, "D": 3, "max_lines": 9, "idtext": 1}, {"N": 4, "D": 3, "max_lines": 9, "exc": 3}]
     out = []
     for base in cfgs:
         out += [dict(base, prefix=p) for p in enumerate_prefixes(body_E1, "X", {}, base, 4)]
@@ -259,9 +259,9 @@ def _l1_shards(tier):
 
 OBLIGATIONS = [
     Ob("L1a", L1a, body_L1a, "S", desc="TaskLevel.fromString(toString(l)) == l", functions=["TaskLevel.toString", "TaskLevel.fromString"],
-       shards={"quick": [{"max_depth": 3, "max_component": 999}], "thorough": [{"max_depth": 3, "max_component": 999}, {"max_depth": 4, "max_component": 99}]},
+       shards={"quick": [{"max_depth": 2, "max_component": 999}], "thorough": [{"max_depth": 3, "max_component": 999}, {"max_depth": 4, "max_component": 99}]},
        timeout={"quick": 150, "thorough": 600}, path_timeout=60,
-       bounds={"quick": "levels of depth <= 3, components 1..999 (unbounded integers: z3's int<->str conversion does not terminate)", "thorough": "additionally depth <= 4, components 1..99"}),
+       bounds={"quick": "levels of depth <= 2, components 1..999 (unbounded integers: z3's int<->str conversion does not terminate)", "thorough": "depth <= 3 with components 1..999 and depth <= 4 with components 1..99"}),
     Ob("L1b", L1b, body_L1b, "S", desc="'<uuid>@<level>' framing: format, ascii encode/decode, split('@') returns the two parts", functions=["Action.serialize_task_id (framing)", "Action.continue_task (decoding)"],
        shards={"quick": [{"text": 0}, {"text": 1}]}, twin=[{"text": 0}], timeout={"quick": 150, "thorough": 400}, path_timeout=60,
        bounds={"quick": "uuid and level strings: any ASCII strings without '@', length <= 5"}),
@@ -269,8 +269,8 @@ OBLIGATIONS = [
        shards=_l1_shards, timeout={"quick": 150, "thorough": 600}, path_timeout=60,
        bounds={"quick": "levels of depth <= 1 with components 1..9 (bytes and text ids) and depth <= 2 with components 1..30 (bytes ids); counter 0..max-2", "thorough": "additionally depth <= 2, components 1..99"}),
     Ob("E1", E1, body_E1, "X", desc="hand-off programs (multi-hop, any point/depth), one file per side, every merge interleaving: one task, remote sub-tree at the reserved position", functions=["Action.serialize_task_id", "Action.continue_task", "FileDestination.__call__", "Parser.parse_stream", "Task.add"],
-       shards=_e1_shards, twin=[{"N": 4, "D": 3, "max_lines": 9, "twin_label": "interleaved-merge"}], timeout={"quick": 100, "thorough": 1500},
-       bounds={"quick": "programs <= 4 ops with >= 1 hand-off, depth <= 3, <= 9 lines in total, all interleavings of the sides' files", "thorough": "<= 5 ops / 10 lines; text ids; failing remote side"}),
+       shards=_e1_shards, twin=[{"N": 4, "D": 3, "max_lines": 8, "twin_label": "interleaved-merge"}], timeout={"quick": 100, "thorough": 1500},
+       bounds={"quick": "programs <= 4 ops with >= 1 hand-off, depth <= 3, <= 8 lines in total, all interleavings of the sides' files", "thorough": "<= 5 ops / 10 lines; text ids; failing remote side"}),
     Ob("E2", E2, body_E2, "X", desc="one preserve_context callable raced by 2-3 threads at line granularity: f runs exactly once, the others get TooManyCalls, result/exception passes through", functions=["preserve_context", "restore_eliot_context", "Action.continue_task"],
        shards={"quick": [{"threads": 2, "P": 3}], "thorough": [{"threads": 2, "P": 1000}, {"threads": 3, "P": 3}]}, twin=[{"threads": 2, "P": 3, "twin_label": "raced"}], timeout={"quick": 100, "thorough": 900},
        bounds={"quick": "2 threads, <= 3 preemptions, yield at every line of restore_eliot_context", "thorough": "2 threads all schedules; 3 threads <= 3 preemptions"}),
